@@ -220,7 +220,10 @@ func runC19(rep *Report, tier string, seed int64, replay string) {
 		"R00 C C", "C R00 C", "R00 F0 F0", "R00 R10 C C",
 		// three receivers on one key with two contexts; the creator's context ends before the third registers; then Free:
 		// EVERY receiver of the key is released, whatever entry it stands on
-		"R00 R01 X0 R01 F0", "R00 R01 X0 R01 C", "R00 R01 X0 R01 P0 F0"} {
+		"R00 R01 X0 R01 F0", "R00 R01 X0 R01 C", "R00 R01 X0 R01 P0 F0",
+		// a key is freed and a key (the same, another) is registered again while a receive function of the freed
+		// generation has not been called yet, then a publish: the stale function returns 'closed', never the value
+		"R00 F0 R10 P1", "R00 F0 R01 P0", "R00 F0 R10 P1 R10", "R10 F1 R00 P0"} {
 		jobs = append(jobs, job{parseBcOps(c)})
 	}
 	for n := 1; n <= maxOps; n++ {
@@ -304,6 +307,29 @@ func runC19(rep *Report, tier string, seed int64, replay string) {
 			if n >= capPer {
 				exhaustive = false
 				break
+			}
+		}
+	}
+	// "selects last": in every scenario, the schedule that holds every receiver at the entry of its select (and, as a
+	// second run, every publisher at the entry of its) until nothing else can move — stale receive functions and
+	// publishers holding an old entry act on whatever the table looks like by then. Repeated: a select with several
+	// ready cases flips a coin.
+	for _, j := range jobs {
+		for _, hold := range []string{"rcvf.select", "pub.select"} {
+			for k := 0; k < 3; k++ {
+				r := runBcSchedulePolicy(j.ops, nil, hold)
+				rep.Evaluations++
+				key := fmt.Sprint(j.ops) + "|" + fmt.Sprint(r.Trace)
+				if !seen[key] {
+					seen[key] = true
+					rep.Distinct++
+					pending = append(pending, r)
+					if len(pending) >= 200 {
+						flush()
+					}
+				} else if len(r.Problems) > 0 {
+					judgeBcRun(rep, r, nil)
+				}
 			}
 		}
 	}
